@@ -176,29 +176,42 @@ built for (records matched by name, numbers by value, variants by index) — for
 covers and every value without raw key/value call streams.  Together with R1: C01 (content), C05 (ok ⇒ exact) and
 C11 (the row depends on the value only through `interpDT`). -/
 theorem push_interp (ext : Ext) (x : SVal) (b b' : B) (dt : DataType) (n : Bool) (md : Metadata)
-    (hraw : noRaw x = true) (hwf : WFB b) (hsafe : Safe b) (hshape : Shape b dt n md) (h : push ext b x = .ok b') :
+    (hraw : noRaw x = true) (hwf : WFB b) (hsafe : Safe b) (hshape : Shape b dt n md) (h : push ext b x = .ok b')
+    (hsmall : Lemmas.C03.ViewSmall b') :
     WFB b' ∧ Safe b' ∧ Shape b' dt n md ∧ ∃ lv, dec b' = dec b ++ [lv] ∧ interpDT ext dt n md x = .ok lv := by
   have ht := push_takeRest ext x b b' h
   obtain ⟨hw', lv, hd⟩ := Build.push_appends ext x b b' (noRaw_rawOK x hraw) hwf hsafe h
   exact ⟨hw', Safe.of_takeRest ht hsafe, Shape.of_takeRest ht hshape, lv, hd,
-    Build.push_interp ext x b b' dt n md lv hraw hwf hsafe hshape h hd⟩
+    Build.push_interp ext x b b' dt n md lv hraw hwf hsafe hshape h hd hsmall⟩
 
 /-- `build_builder` establishes `Shape` for every covered data type -/
 theorem newDT_shape (dt : DataType) (path : String) (n : Bool) (md : Metadata) (b : B) (hc : covered dt = true)
     (h : newDT path dt n md = .ok b) : Shape b dt n md :=
   Build.newDT_shape dt path n md b hc h
 
+/-- view buffers only grow: `ViewSmall` of the final state holds of every intermediate state -/
+theorem foldl_push_small (ext : Ext) : ∀ (rows : List SVal) (b b' : B), rows.foldlM (push ext) b = .ok b' →
+    Lemmas.C03.ViewSmall b' → Lemmas.C03.ViewSmall b
+  | [], b, b', h, hs => by
+    simp [List.foldlM, pure, Except.pure] at h; subst h; exact hs
+  | x :: rest, b, b', h, hs => by
+    simp only [List.foldlM] at h
+    obtain ⟨b1, h1, h⟩ := (bind_ok _ _ _).1 h
+    exact push_small ext x b b1 h1 (foldl_push_small ext rest b1 b' h hs)
+
 theorem foldl_push_interp (ext : Ext) (dt : DataType) (n : Bool) (md : Metadata) : ∀ (rows : List SVal) (b b' : B),
     (∀ x ∈ rows, noRaw x = true) → WFB b → Safe b → Shape b dt n md → rows.foldlM (push ext) b = .ok b' →
+    Lemmas.C03.ViewSmall b' →
     ∃ ls, dec b' = dec b ++ ls ∧ All2 (fun lv x => interpDT ext dt n md x = .ok lv) ls rows
-  | [], b, b', _, _, _, _, h => by
+  | [], b, b', _, _, _, _, h, _ => by
     simp [List.foldlM, pure, Except.pure] at h; subst h
     exact ⟨[], by simp, .nil⟩
-  | x :: rest, b, b', hraw, hwf, hs, hsh, h => by
+  | x :: rest, b, b', hraw, hwf, hs, hsh, h, hsm => by
     simp only [List.foldlM] at h
     obtain ⟨b1, h1, h⟩ := (bind_ok _ _ _).1 h
     obtain ⟨hw1, hs1, hsh1, lv, hd1, hi⟩ := push_interp ext x b b1 dt n md (hraw x (by simp)) hwf hs hsh h1
-    obtain ⟨ls, hd, hall⟩ := foldl_push_interp ext dt n md rest b1 b' (fun y hy => hraw y (by simp [hy])) hw1 hs1 hsh1 h
+      (foldl_push_small ext rest b1 b' h hsm)
+    obtain ⟨ls, hd, hall⟩ := foldl_push_interp ext dt n md rest b1 b' (fun y hy => hraw y (by simp [hy])) hw1 hs1 hsh1 h hsm
     exact ⟨lv :: ls, by rw [hd, hd1]; simp, .cons hi hall⟩
 
 /-- **R3.** `runRows` (all records pushed into a fresh root): the rows the root holds are exactly the documented
@@ -206,7 +219,8 @@ rows `interpRow` of the records, in order; the root is a struct of `rows.length`
 is the struct of the `i`-th entries of the columns, and every column has length `rows.length`. -/
 theorem runRows_interp (ext : Ext) (fields : List Field) (rows : List SVal) (root0 root : B)
     (hc : fields.all coveredF = true) (h0 : newRoot fields = .ok root0) (hsafe : Safe root0)
-    (hraw : ∀ x ∈ rows, noRaw x = true) (h : runRows ext fields rows = .ok root) :
+    (hraw : ∀ x ∈ rows, noRaw x = true) (h : runRows ext fields rows = .ok root)
+    (hsmall : Lemmas.C03.ViewSmall root) :
     All2 (fun lv x => interpRow ext fields x = .ok lv) (dec root) rows ∧
     (∀ col ∈ decRoot root, col.length = rows.length) ∧
     ∃ p fs cached next seen, root = .struct p rows.length none fs cached next seen ∧
@@ -216,7 +230,7 @@ theorem runRows_interp (ext : Ext) (fields : List Field) (rows : List SVal) (roo
   simp only [runRows, h0] at h'
   have h' : rows.foldlM (push ext) root0 = .ok root := h'
   obtain ⟨hw0, hd0, ht0⟩ := newRoot_fresh h0
-  obtain ⟨ls, hd, hall⟩ := foldl_push_interp ext _ _ _ rows root0 root hraw hw0 hsafe (newRoot_shape hc h0) h'
+  obtain ⟨ls, hd, hall⟩ := foldl_push_interp ext _ _ _ rows root0 root hraw hw0 hsafe (newRoot_shape hc h0) h' hsmall
   rw [hd0, List.nil_append] at hd
   refine ⟨by rw [hd]; exact hall, hrows.2.2.2, ?_⟩
   obtain ⟨p, bl, c, s, hr0⟩ := newRoot_struct h0
